@@ -222,3 +222,100 @@ Example C04_concrete_magnitudes :
   /\ Qred (estimate_thr (1 # 100000000) (4 # 2199023255552) (Some (2 # 2199023255552)) (Some (1 # 2199023255552))
                         (Some (1 # 2199023255552))) = 3.
 Proof. vm_compute. repeat split; reflexivity. Qed.
+
+(* measurements: "the two samples' total weights" are those of the catalogs that were paired.  The
+   per-patch weights of a bin (closed-side rule for a side read with the binning, every object for a
+   side read without) add up to the weight of the whole catalog in the bin, however the records are
+   grouped in patches ... *)
+Theorem C04_sample_total_any_patches : forall right binned lo hi (patches : list (list cobj)),
+  qsum (map (cell_weight right binned lo hi) patches) == cell_weight right binned lo hi (concat patches).
+Proof. exact side_total_partition. Qed.
+Print Assumptions C04_sample_total_any_patches.
+
+(* ... so the denominator of a term of a measured cross-correlation is W1 * W2 of the two catalogs, *)
+Theorem C04_measured_denominator_cross : forall right (s1 s2 : side) lo hi,
+  norm_denominator false (bin_weights right s1 lo hi) (bin_weights right s2 lo hi)
+  == side_total right s1 lo hi * side_total right s2 lo hi.
+Proof. exact meas_denominator_cross. Qed.
+Print Assumptions C04_measured_denominator_cross.
+
+(* of a measured autocorrelation half the squared total of the catalog, *)
+Theorem C04_measured_denominator_auto : forall right (s : side) lo hi,
+  norm_denominator true (bin_weights right s lo hi) (bin_weights right s lo hi)
+  == (1 # 2) * (side_total right s lo hi * side_total right s lo hi).
+Proof. exact meas_denominator_auto. Qed.
+Print Assumptions C04_measured_denominator_auto.
+
+(* where the total is that of the records inside the bin for a binned sample and of all records, in
+   every bin, for a sample without binning (the unknown side of a cross-correlation) *)
+Theorem C04_total_of_binned_side : forall right ps lo hi,
+  side_total right {| sd_binned := true; sd_patches := ps |} lo hi
+  = weight_of (filter (fun o => in_bin right lo hi (fst o)) (concat ps)).
+Proof. exact side_total_binned. Qed.
+Print Assumptions C04_total_of_binned_side.
+
+Theorem C04_total_of_unbinned_side : forall right ps lo hi,
+  side_total right {| sd_binned := false; sd_patches := ps |} lo hi = weight_of (concat ps).
+Proof. exact side_total_unbinned. Qed.
+Print Assumptions C04_total_of_unbinned_side.
+
+Theorem C04_measured_doc_denominators : forall right edges m,
+  map2 (norm_denominator (mc_auto m)) (pc_w1 (meas_pc right edges m)) (pc_w2 (meas_pc right edges m))
+  = map (fun lh => norm_denominator (mc_auto m) (bin_weights right (mc_s1 m) (fst lh) (snd lh))
+                                    (bin_weights right (mc_s2 m) (fst lh) (snd lh))) (bin_bounds edges).
+Proof. exact meas_doc_denominators. Qed.
+Print Assumptions C04_measured_doc_denominators.
+
+(* a term fixes the weight product it was normalised with: wherever pairs were counted, a weight
+   missing from a total is a different term *)
+Theorem C04_term_determines_denominator : forall c d d',
+  ~ c == 0 -> ~ d == 0 -> ~ d' == 0 -> c / d == c / d' -> d == d'.
+Proof. exact term_determines_denominator. Qed.
+Print Assumptions C04_term_determines_denominator.
+
+(* the quantifier over all catalogs says more than dense catalogs do: an implementation that records
+   the weight of a (bin, patch) cell only when the partner's cell holds objects is indistinguishable
+   on every pair of catalogs without empty cells, and is not the documented estimator for a sparse
+   reference sample *)
+Theorem C04_skip_empty_agrees_populated : forall right edges m,
+  length (sd_patches (mc_s1 m)) = length (sd_patches (mc_s2 m)) ->
+  all_cells_populated right edges (mc_s1 m) -> all_cells_populated right edges (mc_s2 m) ->
+  meas_pc_skip right edges m = meas_pc right edges m.
+Proof. exact skip_agrees_populated. Qed.
+Print Assumptions C04_skip_empty_agrees_populated.
+
+Theorem C04_skip_empty_refuted : exists right edges dd rd,
+  res_values (corr_data_doc (meas_pc right edges dd) None (Some (meas_pc right edges rd)) None) = [1 # 8; -(1 # 2)]
+  /\ res_values (corr_data (meas_pc right edges dd) None (Some (meas_pc right edges rd)) None) = [1 # 8; -(1 # 2)]
+  /\ res_values (corr_data (meas_pc_skip right edges dd) None (Some (meas_pc_skip right edges rd)) None) = [1 # 2; -(1 # 3)].
+Proof. exact skip_refuted. Qed.
+Print Assumptions C04_skip_empty_refuted.
+
+Example C04_concrete_measurement :
+  (* the catalogs of C04_skip_empty_refuted, bins (0, 1], (1, 2]: weights per bin and patch, totals *)
+  side_weights true [0; 1; 2] ex_ref = [[1; 1; 0]; [0; 1; 1]]
+  /\ side_weights true [0; 1; 2] ex_unk = [[1; 2; 1]; [1; 2; 1]]
+  /\ Qred (side_total true ex_ref 1 2) = 2 /\ Qred (side_total true ex_unk 1 2) = 4
+  (* a record on the closed edge belongs to the bin it closes *)
+  /\ in_bin true 0 1 1 = true /\ in_bin true 1 2 1 = false /\ in_bin false 0 1 1 = false /\ in_bin false 1 2 1 = true
+  (* status codes: DD/RD - 1 = [1/8; -1/2] is accepted whatever the CorrFunc stores; the value normalised
+     with stored weights that lack patch 0 / patch 2 of the unknown sample is reported with the diagnosis *)
+  /\ (let ok := Some ([Some (1 # 8); Some (-(1 # 2))],
+                      [[Some (1 # 3); Some (-(1 # 2))]; [Some 0; Some (-(1 # 2))]; [Some 0; Some (-(1 # 2))]]) in
+      let bad := Some ([Some (1 # 2); Some (-(1 # 3))],
+                       [[Some 1; Some (-(1 # 2))]; [Some 1; Some 0]; [Some 0; Some (-(1 # 4))]]) in
+      let st f := f true [0; 1; 2] in
+      c04_meas_case true [0; 1; 2] 3 ex_dd None (Some ex_rd) None
+                    (st meas_pc ex_dd) None (Some (st meas_pc ex_rd)) None ok = 0%nat
+      /\ c04_meas_case true [0; 1; 2] 3 ex_dd None (Some ex_rd) None
+                       (st meas_pc_skip ex_dd) None (Some (st meas_pc_skip ex_rd)) None ok = 0%nat
+      /\ c04_meas_case true [0; 1; 2] 3 ex_dd None (Some ex_rd) None
+                       (st meas_pc_skip ex_dd) None (Some (st meas_pc_skip ex_rd)) None bad = 39%nat
+      /\ c04_meas_case true [0; 1; 2] 3 ex_dd None (Some ex_rd) None
+                       (st meas_pc ex_dd) None (Some (st meas_pc ex_rd)) None bad = 7%nat)
+  (* n(z) with dz = 1 and no autocorrelations is w_sp; a value from other weights is not accepted *)
+  /\ c04_meas_nz_case true [0; 1; 2] [1; 1] 0 (ex_dd, None, Some ex_rd, None) None None
+                      [Some (1 # 8); Some (-(1 # 2))] [] = 0%nat
+  /\ c04_meas_nz_case true [0; 1; 2] [1; 1] 0 (ex_dd, None, Some ex_rd, None) None None
+                      [Some (1 # 2); Some (-(1 # 3))] [] = 1%nat.
+Proof. vm_compute. repeat split; reflexivity. Qed.
